@@ -177,4 +177,18 @@ theorem dflt_pos {v d : Nat} (hd : 0 < d) : 0 < dflt v d := by
 theorem le_dflt (v d : Nat) : v ≤ dflt v d := by
   unfold dflt; split <;> omega
 
+/-! ### request trees -/
+
+theorem bypass_inherited (root : ReqView) (path : List (Bool × Bool × Bool)) (h : root.bypass = true) :
+    (descend root path).bypass = true := by
+  unfold descend
+  induction path generalizing root with
+  | nil => exact h
+  | cons m t ih =>
+    simp only [List.foldl_cons]
+    apply ih
+    have ht : (childView root m.1 m.2.1 m.2.2).treeBypass = true := h
+    unfold ReqView.bypass
+    rw [ht]; rfl
+
 end SdnsVerif.Lemmas.Ecs
